@@ -594,15 +594,26 @@ def resolve_var(computed, token, parent_style, parent_variables=()):
     args = remove_whitespace(token.arguments)
     variable_name = f'__{args[0].value[2:]}'  # first arg is name
     if variable_name in parent_variables:
-        # Cyclic variables are invalid, handle them as undefined variables.
-        return []
+        # Cyclic variables are invalid at computed-value time.
+        raise InvalidValues(f'{args[0].value} is cyclic')
     default = args[2:]  # default value is after the first comma, commas included
-    computed_value = []
     if values := computed[variable_name]:
-        parent_variables = (*parent_variables, variable_name)
-    for value in (values or default):
-        resolved = resolve_var(computed, value, parent_style, parent_variables)
-        computed_value.extend((value,) if resolved is None else resolved)
+        try:
+            return resolve_vars(
+                computed, values, parent_style, (*parent_variables, variable_name))
+        except InvalidValues:
+            # Variable is invalid, use default value if any.
+            if len(args) == 1:
+                raise
+    return resolve_vars(computed, default, parent_style, parent_variables)
+
+
+def resolve_vars(computed, tokens, parent_style, parent_variables=()):
+    """Return tokens with resolved CSS variables."""
+    computed_value = []
+    for token in tokens:
+        resolved = resolve_var(computed, token, parent_style, parent_variables)
+        computed_value.extend((token,) if resolved is None else resolved)
     return computed_value
 
 
@@ -695,15 +706,9 @@ class ComputedStyle(dict):
 
         if pending:
             # Property with pending values, validate them.
-            solved_tokens = []
-            for token in value.tokens:
-                tokens = resolve_var(self, token, parent_style)
-                if tokens is None:
-                    solved_tokens.append(token)
-                else:
-                    solved_tokens.extend(tokens)
             original_key = key.replace('_', '-')
             try:
+                solved_tokens = resolve_vars(self, value.tokens, parent_style)
                 value = value.solve(solved_tokens, original_key)
             except InvalidValues:
                 if key in INHERITED and parent_style is not None:
